@@ -522,6 +522,65 @@ func extractC01(c *ctxT) {
 		}
 	}
 
+	// ---- can a claim reach the message server inside a signed transaction at all?  (round 4)
+	// (a) MsgClaim wraps the claim in an Any: after the wire round trip of a transaction the cached value is only there if
+	//     MsgClaim implements UnpackInterfaces (codec.UnpackAny of the field) — otherwise ValidateBasic fails on a nil claim;
+	// (b) a claim message on its own is a transaction message only if its type is registered as an sdk.Msg implementation
+	//     (RegisterImplementations((*sdk.Msg)(nil), ...)) or is the request type of an rpc of the Msg service.
+	claimUnpacks := false
+	for _, fd := range c.funcDecls(c01Types) {
+		if fd.Name.Name == "UnpackInterfaces" && recvName(fd) == "MsgClaim" && fd.Body != nil {
+			ast.Inspect(fd.Body, func(n ast.Node) bool {
+				if call, ok := n.(*ast.CallExpr); ok {
+					if sel, ok := call.Fun.(*ast.SelectorExpr); ok && sel.Sel.Name == "UnpackAny" && len(call.Args) >= 1 && strings.HasSuffix(c.src(call.Args[0]), ".Claim") {
+						claimUnpacks = true
+					}
+				}
+				return true
+			})
+		}
+	}
+	claimTypes := []string{"MsgSendToFxClaim", "MsgBridgeCallClaim", "MsgBridgeCallResultClaim", "MsgSendToExternalClaim", "MsgBridgeTokenClaim", "MsgOracleSetUpdatedClaim"}
+	var directMsgs []string
+	msgClaimRegistered := false
+	if fd := c.findFunc(c01Types, "", "RegisterInterfaces"); fd != nil && fd.Body != nil {
+		ast.Inspect(fd.Body, func(n ast.Node) bool {
+			call, ok := n.(*ast.CallExpr)
+			if !ok {
+				return true
+			}
+			sel, ok := call.Fun.(*ast.SelectorExpr)
+			if !ok || sel.Sel.Name != "RegisterImplementations" || len(call.Args) < 1 || !strings.Contains(c.src(call.Args[0]), "sdk.Msg") {
+				return true
+			}
+			for _, a := range call.Args[1:] {
+				t := strings.TrimSuffix(strings.TrimPrefix(c.src(a), "&"), "{}")
+				if t == "MsgClaim" {
+					msgClaimRegistered = true
+				}
+				for _, ct := range claimTypes {
+					if t == ct {
+						directMsgs = append(directMsgs, ct)
+					}
+				}
+			}
+			return true
+		})
+	}
+	if bz, err := os.ReadFile(filepath.Join(c.repo, "proto", "fx", "gravity", "crosschain", "v1", "tx.proto")); err == nil {
+		re := regexp.MustCompile(`(?s)service Msg \{(.*?)\n\}`)
+		if m := re.FindStringSubmatch(stripComments(string(bz))); m != nil {
+			for _, r := range regexp.MustCompile(`rpc\s+\w+\s*\(\s*(\w+)\s*\)`).FindAllStringSubmatch(m[1], -1) {
+				for _, ct := range claimTypes {
+					if r[1] == ct {
+						directMsgs = append(directMsgs, ct)
+					}
+				}
+			}
+		}
+	}
+	sort.Strings(directMsgs)
+
 	var sb strings.Builder
 	sb.WriteString("namespace FxVerif.Gen.C01\n\n")
 	sb.WriteString("inductive Cmp where | lt | lte | other\n  deriving DecidableEq, Repr\n\n")
@@ -577,6 +636,18 @@ func extractC01(c *ctxT) {
 	w("MsgServer.Claim takes the voter from the wrapped claim (claim.GetClaimer())", "claimVoterIsInnerBridger", "Bool", leanBool(voterSrc == "inner"))
 	w("MsgServer.Claim takes the voter from the wrapper (msg.BridgerAddress)", "claimVoterIsWrapperBridger", "Bool", leanBool(voterSrc == "wrapper"))
 	w("MsgClaim.ValidateBasic rejects when wrapper bridger_address != wrapped claim's bridger", "claimValidateBasicBindsSigner", "Bool", leanBool(binds))
+	w("MsgClaim implements UnpackInterfaces and unpacks its `Claim` field (needed for the wrapped claim to survive the wire round trip of a transaction)", "msgClaimUnpacksInterfaces", "Bool", leanBool(claimUnpacks))
+	w("MsgClaim is registered as an sdk.Msg implementation", "msgClaimRegisteredAsMsg", "Bool", leanBool(msgClaimRegistered))
+	w("a signed MsgClaim transaction can reach MsgServer.Claim with its wrapped claim", "claimTxDeliverable", "Bool", leanBool(claimUnpacks && msgClaimRegistered))
+	{
+		var qs []string
+		for _, d := range directMsgs {
+			qs = append(qs, strconv.Quote(d))
+		}
+		w("claim types that are transaction messages on their own (registered as sdk.Msg or request type of a Msg service rpc)", "directClaimMsgTypes", "List String", "["+strings.Join(qs, ", ")+"]")
+	}
+	facts["C01.claimTxDeliverable"] = claimUnpacks && msgClaimRegistered
+	facts["C01.directClaimMsgTypes"] = directMsgs
 	sb.WriteString(c.c01Genesis(facts))
 	sb.WriteString("end FxVerif.Gen.C01\n")
 	c.write("C01.lean", sb.String())
